@@ -200,7 +200,7 @@ pub fn check(rep: &Report) {
     let specials: Vec<(&str, f64)> = vec![
         ("nan", f64::NAN), ("+inf", f64::INFINITY), ("-inf", f64::NEG_INFINITY), ("1e20", 1e20), ("-1e20", -1e20),
         ("1e300", 1e300), ("-1e300", -1e300), ("f64::MAX", f64::MAX), ("f64::MIN", f64::MIN), ("1e11", 1e11), ("-1e11", -1e11),
-        ("-1", -1.0), ("-0.5", -0.5), ("-1000.25", -1000.25), ("5e-324", 5e-324), ("-0", -0.0), ("3e6", 3.0e6), ("9e7", 9.0e7),
+        ("-1", -1.0), ("-0.5", -0.5), ("-1000.25", -1000.25), ("-0.25", -0.25), ("-1.75", -1.75), ("-2.999", -2.999), ("2.5", 2.5), ("5e-324", 5e-324), ("-0", -0.0), ("3e6", 3.0e6), ("9e7", 9.0e7),
     ];
     for (name, v) in specials {
         for s in [false, true] {
@@ -220,6 +220,12 @@ pub fn check(rep: &Report) {
                             rep.fail(&format!("special/{name}/wrong-date"), &format!("{name} converted to a date: {:?}", t.0.or(t.6)), || Replay { json: json!({"serial_bits": format!("{:016x}", v.to_bits()), "serial": name, "is_1904": s}), files: vec![] });
                         }
                         if !beyond {
+                            // a duration is the serial times 24 h, for negative serials too
+                            if let Some(du) = t.1 {
+                                let exp_ms = v * 86_400_000.0;
+                                if (du.num_milliseconds() as f64 - exp_ms).abs() > 1.0 { rep.fail(&format!("special/{name}/duration"), &format!("as_duration({name}) = {} ms, expected {exp_ms} ms", du.num_milliseconds()), || Replay { json: json!({"serial": v, "is_1904": s}), files: vec![] }); }
+                                if t.5 != t.1 { rep.fail(&format!("special/{name}/duration-paths"), &format!("Data::as_duration {:?} vs ExcelDateTime::as_duration {:?}", t.5, t.1), || Replay { json: json!({"serial": v, "is_1904": s}), files: vec![] }); }
+                            }
                             // in-calendar values: must agree with the exact computation where defined
                             if let (Some(dt), true) = (t.0, v >= 0.0) {
                                 if let Some(exp) = expected(v, s) {
